@@ -1760,6 +1760,20 @@ func TestDriverBlocks(t *testing.T) {
 			break
 		}
 	}
+	// one wide block at the end of the history: more Ethereum transactions than a byte can count, so that per-position
+	// state keyed by a narrowed index (transient per-index gas, log counts, event attributes) meets positions >= 256.
+	// Own fork of the generator: the blocks above are the same with and without it.
+	if d.w != nil && d.w.usable && EnvInt("VERIF_BLOCKS_WIDE", 1) != 0 {
+		r := rng.Fork(1_000_003)
+		if !d.guard("wide block", func() {
+			d.w.setMaxGas(-1)
+			gen := d.w.genBlock(r, 440+r.Intn(40)) // about two thirds reach execution
+			side.Count("wide-block")
+			d.runBlock("wide", gen, false)
+		}) {
+			side.Count("case-skipped")
+		}
+	}
 	cases.Write(t, 25)
 	side.Write(t, dir)
 }
